@@ -49,11 +49,13 @@ def ogSet (c : OgCache) (id : Nat) (g : Option Graph) : OgCache :=
     it (`objCache.Clone()`), Reset copies it back, Clear zeroes it. -/
 structure Hdr where
   bal : Int
-  code : Option Nat
+  isContract : Bool
+  cur : Option Nat              -- curContract: code id of the accepted, active contract
+  next : Option (Nat × Bool)    -- nextContract: (code id, rejected?) — pending or rejected deployment
   og : OgCache
 deriving DecidableEq, Repr
 
-def Hdr.zero : Hdr := ⟨0, none, []⟩
+def Hdr.zero : Hdr := ⟨0, false, none, none, []⟩
 
 /-- accountSnapshotImpl -/
 structure Snap where
@@ -63,7 +65,7 @@ structure Snap where
 deriving DecidableEq, Repr
 
 /-- accountData.IsEmpty on a snapshot (state = 0 in this reduction) -/
-def Snap.isEmpty (s : Snap) : Bool := s.hdr.bal == 0 && s.hdr.code.isNone && s.store.isNone
+def Snap.isEmpty (s : Snap) : Bool := s.hdr.bal == 0 && !s.hdr.isContract && s.store.isNone
 
 /-- accountStateImpl -/
 structure AState where
@@ -110,19 +112,48 @@ def AState.setValue (st : AState) (k v : Nat) : AState × Nat :=
     let l := st.store.getD []
     ({ st with store := some (kvSet l k v), last := none }, (kvGet l k).getD 0)
 
-/-- InitContractAccount + DeployContract(code c) + AcceptContract: the account is a
-    contract whose current contract has code id `c` (every step marks dirty) -/
+/-- accountStateImpl.InitContractAccount (returns false and changes nothing if already a contract) -/
+def AState.initContract (st : AState) : AState :=
+  if st.hdr.isContract then st
+  else { st with hdr := { st.hdr with isContract := true }, last := none }
+
+/-- accountStateImpl.DeployContract with deploy tx / code `c`: the next contract becomes
+    (c, pending); no-op on a non-contract account. (`nextContract.Status() == CSActive`
+    cannot occur: ActivateNextContract is not part of this reduction.) -/
+def AState.deployContract (st : AState) (c : Nat) : AState :=
+  if !st.hdr.isContract then st
+  else { st with hdr := { st.hdr with next := some (c, false) }, last := none }
+
+/-- accountStateImpl.AcceptContract(txHash of c): `false` = one of the error returns -/
+def AState.acceptContract (st : AState) (c : Nat) : AState × Bool :=
+  match st.hdr.isContract, st.hdr.next with
+  | true, some (c', rejected) =>
+    if c' ≠ c then (st, false)          -- NoMatchedDeployTxHash
+    else if rejected then (st, false)   -- AlreadyRejected
+    else ({ st with hdr := { st.hdr with cur := some c, next := none }, last := none }, true)
+  | _, _ => (st, false)                 -- NoAvailableContract
+
+/-- accountStateImpl.RejectContract(txHash of c) -/
+def AState.rejectContract (st : AState) (c : Nat) : AState × Bool :=
+  match st.hdr.isContract, st.hdr.next with
+  | true, some (c', rejected) =>
+    if c' ≠ c then (st, false)
+    else if rejected then (st, false)   -- NotPendingContract
+    else ({ st with hdr := { st.hdr with next := some (c, true) }, last := none }, true)
+  | _, _ => (st, false)
+
+/-- InitContractAccount + DeployContract(c) + AcceptContract(c) in one go -/
 def AState.deploy (st : AState) (c : Nat) : AState :=
-  { st with hdr := { st.hdr with code := some c }, last := none }
+  ((st.initContract.deployContract c).acceptContract c).1
 
 /-- accountStateImpl.SetObjGraph(curContract.CodeID(), true, nh, g); only issued for contract accounts -/
 def AState.setObjGraph (st : AState) (nh g : Nat) : AState :=
-  match st.hdr.code with
+  match st.hdr.cur with
   | none => st
   | some c => { st with hdr := { st.hdr with og := ogSet st.hdr.og c (graphChanged nh g) }, last := none }
 
 /-- GetObjGraph(curContract.CodeID(), true) -/
-def Hdr.graph (h : Hdr) : Option Graph := h.code.bind (ogGet h.og)
+def Hdr.graph (h : Hdr) : Option Graph := h.cur.bind (ogGet h.og)
 
 /-- `store.Empty()` normalisation in accountStateImpl.GetSnapshot -/
 def normStore : Option KV → Option KV
@@ -172,6 +203,24 @@ def World.setValue (w : World) (a k v : Nat) : World × Nat :=
 def World.deploy (w : World) (a c : Nat) : World :=
   let (w1, st) := w.getAccountState a
   w1.putState a (st.deploy c)
+
+def World.initContract (w : World) (a : Nat) : World :=
+  let (w1, st) := w.getAccountState a
+  w1.putState a st.initContract
+
+def World.deployContract (w : World) (a c : Nat) : World :=
+  let (w1, st) := w.getAccountState a
+  w1.putState a (st.deployContract c)
+
+def World.acceptContract (w : World) (a c : Nat) : World × Bool :=
+  let (w1, st) := w.getAccountState a
+  let (st', ok) := st.acceptContract c
+  (w1.putState a st', ok)
+
+def World.rejectContract (w : World) (a c : Nat) : World × Bool :=
+  let (w1, st) := w.getAccountState a
+  let (st', ok) := st.rejectContract c
+  (w1.putState a st', ok)
 
 def World.setObjGraph (w : World) (a nh g : Nat) : World :=
   let (w1, st) := w.getAccountState a
@@ -245,14 +294,16 @@ def World.reload (base : Nat) (ws : WSnap) : World :=
 /-- logical content of an account -/
 structure AcctData where
   bal : Int
-  code : Option Nat          -- current contract, none = not a contract account
+  isContract : Bool
+  cur : Option Nat           -- current (accepted) contract
+  next : Option (Nat × Bool) -- pending / rejected next contract
   graph : Option Graph       -- object graph of the current contract
   get : Nat → Option Nat
 
-def dataOf (h : Hdr) (store : Option KV) : AcctData := ⟨h.bal, h.code, h.graph, fun k => kvGet (store.getD []) k⟩
+def dataOf (h : Hdr) (store : Option KV) : AcctData := ⟨h.bal, h.isContract, h.cur, h.next, h.graph, fun k => kvGet (store.getD []) k⟩
 
 /-- emptiness of mutable content (nil store or empty store) -/
-def contentEmpty (h : Hdr) (store : Option KV) : Bool := h.bal == 0 && h.code.isNone && (normStore store).isNone
+def contentEmpty (h : Hdr) (store : Option KV) : Bool := h.bal == 0 && !h.isContract && (normStore store).isNone
 
 def absSnap (s : Option Snap) : Option AcctData :=
   match s with
@@ -279,6 +330,10 @@ inductive Op where
   | setValue (a k v : Nat)
   | deleteValue (a k : Nat)
   | deploy (a c : Nat)
+  | initContract (a : Nat)
+  | deployContract (a c : Nat)
+  | acceptContract (a c : Nat)
+  | rejectContract (a c : Nat)
   | setObjGraph (a nh g : Nat)
   | touch (a : Nat)              -- GetAccountState only (reads through the state)
   | peek (a : Nat)               -- ws.GetAccountSnapshot (reads through the snapshot)
@@ -298,6 +353,10 @@ def Hist.step (h : Hist) : Op → Hist
   | .setValue a k v => { h with w := (h.w.setValue a k v).1 }
   | .deleteValue a k => { h with w := (h.w.deleteValue a k).1 }
   | .deploy a c => { h with w := h.w.deploy a c }
+  | .initContract a => { h with w := h.w.initContract a }
+  | .deployContract a c => { h with w := h.w.deployContract a c }
+  | .acceptContract a c => { h with w := (h.w.acceptContract a c).1 }
+  | .rejectContract a c => { h with w := (h.w.rejectContract a c).1 }
   | .setObjGraph a nh g => { h with w := h.w.setObjGraph a nh g }
   | .touch a => { h with w := (h.w.getAccountState a).1 }
   | .peek a => { h with w := (h.w.getAccountSnapshot a).1 }
